@@ -268,6 +268,37 @@ def run_body(filler_label, placement, final_nl, ugl, res):
 
 
 # ---------------------------------------------------------------- directory / load-path layouts
+def nested_loadpath_cases():
+    """The load path must apply to require() calls at every nesting depth, however it was given (argument or
+    environment variable): chains main -> a -> b (-> c) whose inner targets are reachable only through the custom
+    path (absolute second library directory), or for which the default path would find a decoy instead
+    (relative template, resolved against the requiring file's directory)."""
+    out = []
+    for via in ('arg', 'env'):
+        for depth in (1, 2):
+            # absolute library directory <D>/lib2: nested targets live only there
+            files = {'a.lua': b'require("b")\na=1\n', 'lib2/b.lua': (b'require("c")\n' if depth == 2 else b'') + b'b=2\n'}
+            exp = {b'a': 'a.lua', b'b': 'lib2/b.lua'}
+            if depth == 2:
+                files['lib2/c.lua'] = b'c=3\n'
+                exp[b'c'] = 'lib2/c.lua'
+            lp = '?.lua;<D>/lib2/?.lua'
+            out.append(('nested-loadpath-abs-%s-%d' % (via, depth), files, b'require("a")\nz=1\n',
+                        ['--lua-path', lp] if via == 'arg' else [], lp if via == 'env' else None, exp))
+            # relative template mods/?.lua: a decoy with the same name is what the default path would find
+            files = {'mods/a.lua': b'require("b")\na=1\n', 'mods/mods/b.lua': (b'require("c")\n' if depth == 2 else b'') + b'b=2\n',
+                     'mods/b.lua': b'decoy=1\n'}
+            exp = {b'a': 'mods/a.lua', b'b': 'mods/mods/b.lua'}
+            if depth == 2:
+                files['mods/mods/mods/c.lua'] = b'c=3\n'
+                files['mods/mods/c.lua'] = b'decoy=2\n'
+                exp[b'c'] = 'mods/mods/mods/c.lua'
+            lp = 'mods/?.lua;?.lua'
+            out.append(('nested-loadpath-rel-%s-%d' % (via, depth), files, b'require("a")\nz=1\n',
+                        ['--lua-path', lp] if via == 'arg' else [], lp if via == 'env' else None, exp))
+    return out
+
+
 def path_cases():
     # (files, main source, build args, env, expected packages {name: file})
     return [
@@ -288,7 +319,7 @@ def path_cases():
          b'require("util")\nrequire("util/vec")\nz=1\n', [], None, {b'util': 'util.lua', b'util/vec': 'util/vec.lua'}),
         ('dir-named-like-package-loadpath', {'lib/util.lua': b'u=1\n', 'lib/util/vec.lua': b'v=2\n', 'util/x.lua': b'w=3\n'},
          b'require("util")\nz=1\n', ['--lua-path', 'lib/?;lib/?.lua'], None, {b'util': 'lib/util.lua'}),
-    ]
+    ] + nested_loadpath_cases()
 
 
 def run_path(pc, res):
@@ -301,8 +332,9 @@ def run_path(pc, res):
             os.makedirs(os.path.dirname(os.path.join(d, f)) or d, exist_ok=True)
             open(os.path.join(d, f), 'wb').write(data)
         open(os.path.join(d, 'main.lua'), 'wb').write(main)
+        args = [a.replace('<D>', d) for a in args]
         if env:
-            os.environ['PICO8_LUA_PATH'] = env
+            os.environ['PICO8_LUA_PATH'] = env.replace('<D>', d)
         case = {'kind': 'path', 'name': name}
         res.nontriv(('path', name))
         rcode, err, out = build(d, args)
